@@ -31,3 +31,38 @@ INSERT INTO big VALUES (9007199254740992, 1);
 INSERT INTO big VALUES (9007199254740993, 2);
 SELECT v FROM big WHERE k > 9007199254740992;
 --   observed: no rows   (expected [2])
+-- [C14 #16] UPDATE and DELETE are not recorded: ROLLBACK TO SAVEPOINT fails with RowNotFound and leaves [2] (expected [1])
+CREATE TABLE s (a INTEGER);
+BEGIN;
+INSERT INTO s VALUES (1);
+SAVEPOINT sp1;
+UPDATE s SET a = 2 WHERE a = 1;
+INSERT INTO s VALUES (3);
+DELETE FROM s WHERE a = 3;
+SELECT a FROM s;
+ROLLBACK TO SAVEPOINT sp1;
+SELECT a FROM s;
+COMMIT;
+-- [C14 #15] duplicate savepoint name: rollback goes to the FIRST x, leaving [1] (SQL:1999: the latest, leaving [1] [2])
+CREATE TABLE q (a INTEGER);
+BEGIN;
+INSERT INTO q VALUES (1);
+SAVEPOINT x;
+INSERT INTO q VALUES (2);
+SAVEPOINT x;
+INSERT INTO q VALUES (3);
+ROLLBACK TO SAVEPOINT x;
+SELECT a FROM q;
+COMMIT;
+-- [C13 #25, not claimed] after ROLLBACK the table is restored to [(1,10)] but the user index still says a=5: WHERE a = 1 returns nothing
+CREATE TABLE r (a INTEGER, b INTEGER);
+INSERT INTO r VALUES (1, 10);
+CREATE INDEX r_a ON r (a);
+BEGIN;
+INSERT INTO r VALUES (2, 20);
+UPDATE r SET a = 5 WHERE a = 1;
+ROLLBACK;
+SELECT a, b FROM r;
+SELECT b FROM r WHERE a = 1;
+SELECT b FROM r WHERE a = 2;
+SELECT b FROM r WHERE a = 5;
